@@ -144,10 +144,10 @@ func workerMain(args []string) {
 }
 
 type workerPool struct {
-	cmd    *exec.Cmd
-	stdin  io.WriteCloser
-	stdout *bufio.Reader
-	stderr *os.File
+	cmd     *exec.Cmd
+	stdin   io.WriteCloser
+	stdout  *bufio.Reader
+	stderr  *os.File
 	errPath string
 }
 
